@@ -1,11 +1,15 @@
 #!/bin/bash
 # re-evaluate every kept seeded change against the check of its own property (quick tier) and record the verdict in its meta.json
+# usage: tools_seeded_all.sh [parallel jobs, default 1] ; EXTRA_CHECKS=,C01 adds checks
 cd "$(dirname "$0")"
-for d in seeded/*/; do
+jobs=${1:-1}
+one() {
+  d=$1
   n=$(basename $d)
   c=${n%%-*}
-  extra=${EXTRA_CHECKS:-}
-  echo "== $n"
-  if grep -q '"retired"' $d/meta.json; then echo "retired (kept for the record, not evaluated)"; continue; fi
-  ./tools_seeded.py $d --adopt $n --checks $c$extra 2>&1 | grep -a "CAUGHT\|held\|inconclusive\|error\|apply" | grep -v "^RESULT" | cut -c1-200
-done
+  if grep -q '"retired"' $d/meta.json; then echo "== $n retired (kept for the record, not evaluated)"; return; fi
+  out=$(./tools_seeded.py $d --adopt $n --checks $c${EXTRA_CHECKS:-} 2>&1 | grep -a "CAUGHT\|held\|inconclusive\|error\|apply" | grep -v "^RESULT" | cut -c1-200)
+  echo "== $n $out"
+}
+export -f one
+ls -d seeded/*/ | xargs -P $jobs -I{} bash -c 'one {}'
